@@ -102,7 +102,7 @@ impl Case17 {
                     for i in 0..v3.len() {
                         let want = self.alpha * v1[i] + self.beta * v2[i];
                         let ok = if exact {
-                            let big = [m1[h].as_ref(), m2[h].as_ref(), m3[h].as_ref()].iter().any(|m| m.map_or(true, |m| m[i].abs() * (self.alpha.abs() + self.beta.abs() + 1.0) >= exact_limit()));
+                            let big = [m1[h].as_ref(), m2[h].as_ref(), m3[h].as_ref()].iter().any(|m| m.map_or(true, |m| m.get(i).map_or(true, |x| x.abs() * (self.alpha.abs() + self.beta.abs() + 1.0) >= exact_limit())));
                             if big {
                                 true
                             } else {
@@ -110,7 +110,7 @@ impl Case17 {
                             }
                         } else {
                             match (&m1[h], &m2[h], &m3[h]) {
-                                (Some(a), Some(b), Some(c)) => close(v3[i], want, self.alpha.abs() * a[i] + self.beta.abs() * b[i] + c[i], false),
+                                (Some(a), Some(b), Some(c)) if a.len() > i && b.len() > i && c.len() > i => close(v3[i], want, self.alpha.abs() * a[i] + self.beta.abs() * b[i] + c[i], false),
                                 _ => true,
                             }
                         };
@@ -143,7 +143,7 @@ impl Case17 {
                     (Some((_, v1)), Some((_, vs))) if v1.len() == vs.len() => {
                         for i in 0..v1.len() {
                             let want = v1[i] * scale;
-                            let ok = if exact { vs[i] == want } else { m1[h].as_ref().map_or(true, |m| close(vs[i], want, 2.0 * m[i] * scale, false) || (vs[i] - want).abs() <= 1e-9 * scale * (m[i] + want.abs() / scale)) };
+                            let ok = if exact { vs[i] == want } else { m1[h].as_ref().filter(|m| m.len() > i).map_or(true, |m| close(vs[i], want, 2.0 * m[i] * scale, false) || (vs[i] - want).abs() <= 1e-9 * scale * (m[i] + want.abs() / scale)) };
                             if !ok {
                                 return e("not-homogeneous", format!("handle {} element {}: g({:e}*s1) = {:e} but {:e}*g(s1) = {:e} (s1 {:?})", h, i, scale, vs[i], scale, want, self.s1));
                             }
@@ -184,7 +184,7 @@ impl Case17 {
                         }
                         let same = match (&gg[h], &g2[h]) {
                             (None, None) => true,
-                            (Some((d1, v1)), Some((d2, v2))) => d1 == d2 && v1.len() == v2.len() && (0..v1.len()).all(|i| if exact { v1[i] == v2[i] } else { m2[h].as_ref().map_or(true, |mm| close(v1[i], v2[i], 2.0 * mm[i], false)) }),
+                            (Some((d1, v1)), Some((d2, v2))) => d1 == d2 && v1.len() == v2.len() && (0..v1.len()).all(|i| if exact { v1[i] == v2[i] } else { m2[h].as_ref().filter(|mm| mm.len() > i).map_or(true, |mm| close(v1[i], v2[i], 2.0 * mm[i], false)) }),
                             _ => false,
                         };
                         if !same {
